@@ -1,6 +1,7 @@
 """C01 — the interpreter computes the reference result for well-typed programs.
 Lock-step differential trace monitor: instruction hook on the real interpreter vs the calibrated reference interpreter."""
 from rv.checks import _lock as K
+from rv.checks import _real as R
 from rv.gen import programs as GP
 from rv.model import interp as I
 from rv.model import types as T_
@@ -74,8 +75,14 @@ def run(ctx):
                 'programs x %d environment configurations (incl. defaults); (3) programs from the typed expression compiler with '
                 'random stack scheduling (size <= %d, depth <= %d); each run lock-step: every post-instruction stack, the final '
                 'stack and the FAILWITH value compared with the reference interpreter; distinct by program text + environment; '
-                'non-trivial = >= 3 distinct primitives' % (ctx.pick(12, 41), ctx.pick(40, 120), ctx.pick(3, 4)))
+                'non-trivial = >= 3 distinct primitives; (4) real contracts: the mainnet scripts and recorded calls shipped with the '
+                'repository tests, through Interpreter.run_code with varied sender/amount/time and big maps filled from the recorded '
+                'diffs (thorough: also random arguments for every entrypoint); operation-building instructions are adopted from the '
+                'hook trace, everything else is compared in lock-step' % (ctx.pick(12, 41), ctx.pick(40, 120), ctx.pick(3, 4)))
     workload(ctx, PID, MODE, False)
+    R.workload(ctx, PID, MODE)
+    ctx.require('real_contract_agree' if not ctx.violations else 'real_contract_calls', 20)
+    ctx.require('real_contract_hook_events', 1000)
     ctx.require('agree', 300)
     ctx.require('hook_events', 3000)
     ctx.require('model_outcome_failwith', 5)
@@ -87,6 +94,8 @@ def run(ctx):
 
 
 def replay(ctx, case):
+    if case.get('label') == 'real-contract':
+        return R.replay(ctx, PID, case, MODE)
     if case.get('label') == 'run_code' and case.get('types'):
         from rv.core import lockstep as L_
         oc = L_.run_both_contract(case['code'], [T_.from_micheline(t) for t in case['types']], K.env_from_json(case.get('env')), MODE)
